@@ -2038,3 +2038,61 @@ func aGroupThatSpansLinesClosesAfterALineBreakToo(c *core.Ctx) {
 	}
 	c.Stat("multi_line_group_closers", n)
 }
+
+// ---------------------------------------------------------------------------
+// equalityIsNotInherited: x == x holds for every value (NaN aside).  An
+// Equals method asserts that the other operand is of its own type before it
+// compares; a type that embeds another object type and takes over that type's
+// Equals hands it an operand of the outer type, the assertion fails, and the
+// value is not equal to itself (it := iter(ch); it == it is false).  Every
+// object type that embeds another one defines its own Equals.
+func equalityIsNotInherited(c *core.Ctx) {
+	p := c.P
+	n := 0
+	for _, rel := range []string{"object"} {
+		pk := p.Pkg(rel)
+		objI := core.MustType(p.Pkg("object"), "Object").Underlying().(*types.Interface)
+		sc := pk.Types.Scope()
+		for _, name := range sc.Names() {
+			tn, ok := sc.Lookup(name).(*types.TypeName)
+			if !ok {
+				continue
+			}
+			nt, ok := tn.Type().(*types.Named)
+			if !ok {
+				continue
+			}
+			st, ok := nt.Underlying().(*types.Struct)
+			if !ok || !types.Implements(types.NewPointer(nt), objI) {
+				continue
+			}
+			// embeds an object type (other than the shared base of defaults)
+			embeds := ""
+			for i := 0; i < st.NumFields(); i++ {
+				f := st.Field(i)
+				if !f.Embedded() {
+					continue
+				}
+				et := core.NamedOf(f.Type())
+				if et == nil || et.Obj().Pkg() != pk.Types {
+					continue
+				}
+				if core.Method(et, "Equals") != nil {
+					embeds = et.Obj().Name()
+				}
+			}
+			if embeds == "" {
+				continue
+			}
+			n++
+			sel := types.NewMethodSet(types.NewPointer(nt)).Lookup(pk.Types, "Equals")
+			own := sel != nil && len(sel.Index()) == 1
+			c.Check(own, "object."+name+"|Equals|its-own", p.Pos(tn.Pos()),
+				name+" embeds "+embeds+ife(own, " and defines its own Equals", " and takes over its Equals, which asserts that the other operand is a "+embeds+": a "+name+" is then not equal to itself"))
+		}
+	}
+	if n == 0 {
+		c.Pass("object|no-object-type-embeds-another", "", "no object type embeds another object type that defines Equals")
+	}
+	c.Stat("embedding_object_types", n)
+}
